@@ -44,7 +44,9 @@ type c02Conc struct {
 
 func c02Concretisations(n int, idx int, all bool) []c02Conc {
 	bases := []uint64{0, 1<<32 - 3, math.MaxUint64 - uint64(n) - 1, 1 << 32, 1<<63 - 2}
-	sizeSets := [][]int{{1}, {2, 1, 17}, {17, 4096, 1, 2}, {4096}, {255, 256, 1}}
+	// payload sizes include 0: the sender never emits an empty data frame, but the decoder accepts one from a foreign
+	// peer and it must consume its sequence number like any other ("all ... payload sizes")
+	sizeSets := [][]int{{1}, {2, 1, 17}, {0, 3, 0}, {17, 4096, 1, 2}, {4096}, {5, 0}, {255, 256, 1}}
 	var out []c02Conc
 	mk := func(b uint64, ss []int) c02Conc {
 		sizes := make([]int, n)
@@ -330,6 +332,11 @@ func TestVerifC02Trace(t *testing.T) {
 					tw.Emit(map[string]any{"ev": "W.call", "w": w, "i": i})
 					tbc, err := sb.Write(f)
 					tw.Emit(map[string]any{"ev": "W.ret", "w": w, "tbc": tbc, "err": err != nil})
+					if tbc {
+						// as Stream.recvFrame does on the same goroutine: the close takes effect right behind the last payload.
+						// A reader parked in Read must still be handed every payload before it sees the end of the stream.
+						sb.Close()
+					}
 					for j := range scratch {
 						scratch[j] = 0xEE
 					}
